@@ -88,7 +88,7 @@ class CallMixin:
 
     # ------------------------------------------------------------------ repository functions
     def call_function(self, fi, args, kwargs, star=None):
-        c = self.specs.lookup(fi)
+        c = self.specs.lookup(fi, self.view)
         if c is not None and c.use != 'inline' and not (self.depth == 0 and False):
             if not self.spec_mode or c.pure:
                 return self.call_contract(fi, c, args, kwargs, star=star)
